@@ -258,7 +258,8 @@ Inductive rres : Type :=
 
 (* what a frame / a Call / a Create hands back: result, gas left, world, interpreter.returnData, trace,
    and (Create) the contract address *)
-Record outcome : Type := mk_out { o_res : rres; o_gas : Z; o_world : world; o_rd : list Z; o_trace : list tentry; o_addr : Z }.
+Record outcome : Type := mk_out { o_res : rres; o_gas : Z; o_world : world; o_rd : list Z; o_trace : list tentry; o_addr : Z;
+  o_ro : bool (* interpreter.readOnly when the call is back: mutable interpreter state, see do_staticcall *) }.
 
 Definition is_failure (r : rres) : bool := match r with R_ok _ => false | _ => true end.
 Definition ret_of (r : rres) : list Z := match r with R_ok x => x | R_revert x => x | R_err _ x => x | _ => [] end.
@@ -381,31 +382,31 @@ Definition precompile_gas (a : Z) (input : list Z) (oracle_gas : Z) : Z :=
   else if a =? 8 then wrap64 (100000 + (blen input / 192) * 80000)
   else wrap64 oracle_gas.   (* RequiredGas returns a uint64 *)
 
-Definition mkout (r : rres) (gas : Z) (w : world) (rd : list Z) (tr : list tentry) : outcome := mk_out r gas w rd tr 0.
+Definition mkout (r : rres) (gas : Z) (w : world) (rd : list Z) (tr : list tentry) (ro : bool) : outcome := mk_out r gas w rd tr 0 ro.
 
 (* contracts.go RunPrecompiledContract.  bigModExp (5) and dataCopy (4) are modelled completely; the
    outputs of the others come from the oracle *)
-Definition run_precompile (e : env) (w : world) (a : Z) (input : list Z) (gas : Z) (rd : list Z) (tr : list tentry) : outcome :=
+Definition run_precompile (e : env) (w : world) (a : Z) (input : list Z) (gas : Z) (rd : list Z) (tr : list tentry) (ro : bool) : outcome :=
   if a =? 5 then
     match modexp_gas input with
     | Ok need =>
-        if gas <? need then mkout (R_err (IE_op ErrOutOfGas) []) gas w rd tr
+        if gas <? need then mkout (R_err (IE_op ErrOutOfGas) []) gas w rd tr ro
         else match modexp_run input with
-             | Ok out => mkout (R_ok out) (gas - need) w rd tr
-             | _ => mkout R_panic (gas - need) w rd tr
+             | Ok out => mkout (R_ok out) (gas - need) w rd tr ro
+             | _ => mkout R_panic (gas - need) w rd tr ro
              end
-    | _ => mkout R_panic gas w rd tr
+    | _ => mkout R_panic gas w rd tr ro
     end
   else
   match e_precomp e a input with
-  | None => mkout (R_err IE_OracleMissing []) gas w rd tr
+  | None => mkout (R_err IE_OracleMissing []) gas w rd tr ro
   | Some (og, result) =>
       let need := precompile_gas a input og in
-      if gas <? need then mkout (R_err (IE_op ErrOutOfGas) []) gas w rd tr
-      else if a =? 4 then mkout (R_ok input) (gas - need) w rd tr        (* dataCopy.Run *)
+      if gas <? need then mkout (R_err (IE_op ErrOutOfGas) []) gas w rd tr ro
+      else if a =? 4 then mkout (R_ok input) (gas - need) w rd tr ro        (* dataCopy.Run *)
       else match result with
-           | Some out => mkout (R_ok out) (gas - need) w rd tr
-           | None => mkout (R_err IE_Precompile []) (gas - need) w rd tr
+           | Some out => mkout (R_ok out) (gas - need) w rd tr ro
+           | None => mkout (R_err IE_Precompile []) (gas - need) w rd tr ro
            end
   end.
 
@@ -418,7 +419,7 @@ Definition interp_t := world -> frame -> outcome.
 (* evm.go run(): precompile or interpreter; [rd] is interpreter.returnData at this point (it is only
    reset when Interpreter.Run is entered) *)
 Definition run_contract (rec : interp_t) (e : env) (w : world) (codeaddr : Z) (fr : frame) (rd : list Z) : outcome :=
-  if is_precompile e codeaddr then run_precompile e w codeaddr (f_input fr) (f_gas fr) rd (f_trace fr)
+  if is_precompile e codeaddr then run_precompile e w codeaddr (f_input fr) (f_gas fr) rd (f_trace fr) (f_ro fr)
   else rec w fr.
 
 (* the tail shared by the four call kinds: revert to the snapshot on any error, and consume all
@@ -426,8 +427,8 @@ Definition run_contract (rec : interp_t) (e : env) (w : world) (codeaddr : Z) (f
 Definition finish_call (snapshot : world) (o : outcome) : outcome :=
   match o_res o with
   | R_ok _ => o
-  | R_revert _ => mk_out (o_res o) (o_gas o) snapshot (o_rd o) (o_trace o) (o_addr o)
-  | R_err _ _ => mk_out (o_res o) 0 snapshot (o_rd o) (o_trace o) (o_addr o)
+  | R_revert _ => mk_out (o_res o) (o_gas o) snapshot (o_rd o) (o_trace o) (o_addr o) (o_ro o)
+  | R_err _ _ => mk_out (o_res o) 0 snapshot (o_rd o) (o_trace o) (o_addr o) (o_ro o)
   | R_panic => o
   | R_fuel => o
   end.
@@ -435,12 +436,12 @@ Definition finish_call (snapshot : world) (o : outcome) : outcome :=
 (* evm.Call; [depth] is evm.depth at the time of the call *)
 Definition do_call (rec : interp_t) (e : env) (w : world) (rd : list Z) (tr : list tentry) (depth : Z) (ro : bool)
            (caller addr : Z) (input : list Z) (gas value : Z) : outcome :=
-  if depth >? CallCreateDepth then mkout (R_err IE_Depth []) gas w rd tr
-  else if negb (can_transfer w caller value) then mkout (R_err IE_InsufficientBalance []) gas w rd tr
+  if depth >? CallCreateDepth then mkout (R_err IE_Depth []) gas w rd tr ro
+  else if negb (can_transfer w caller value) then mkout (R_err IE_InsufficientBalance []) gas w rd tr ro
   else
     let snapshot := w in
     if negb (exist w addr) && negb (is_precompile e addr) && e_eip158 e && (Z.sgn value =? 0)
-    then mkout (R_ok []) gas w rd tr
+    then mkout (R_ok []) gas w rd tr ro
     else
       let w1 := if negb (exist w addr) then create_account w addr else w in
       let w2 := transfer w1 caller addr value in
@@ -450,8 +451,8 @@ Definition do_call (rec : interp_t) (e : env) (w : world) (rd : list Z) (tr : li
 (* evm.CallCode *)
 Definition do_callcode (rec : interp_t) (e : env) (w : world) (rd : list Z) (tr : list tentry) (depth : Z) (ro : bool)
            (caller addr : Z) (input : list Z) (gas value : Z) : outcome :=
-  if depth >? CallCreateDepth then mkout (R_err IE_Depth []) gas w rd tr
-  else if negb (can_transfer w caller value) then mkout (R_err IE_InsufficientBalance []) gas w rd tr
+  if depth >? CallCreateDepth then mkout (R_err IE_Depth []) gas w rd tr ro
+  else if negb (can_transfer w caller value) then mkout (R_err IE_InsufficientBalance []) gas w rd tr ro
   else
     let fr := new_frame (get_code w addr) input caller caller value gas ro (depth + 1) tr in
     finish_call w (run_contract rec e w addr fr rd).
@@ -459,30 +460,39 @@ Definition do_callcode (rec : interp_t) (e : env) (w : world) (rd : list Z) (tr 
 (* evm.DelegateCall: the caller and the value of the parent frame are kept *)
 Definition do_delegatecall (rec : interp_t) (e : env) (w : world) (rd : list Z) (tr : list tentry) (depth : Z) (ro : bool)
            (self parent_caller parent_value addr : Z) (input : list Z) (gas : Z) : outcome :=
-  if depth >? CallCreateDepth then mkout (R_err IE_Depth []) gas w rd tr
+  if depth >? CallCreateDepth then mkout (R_err IE_Depth []) gas w rd tr ro
   else
     let fr := new_frame (get_code w addr) input self parent_caller parent_value gas ro (depth + 1) tr in
     finish_call w (run_contract rec e w addr fr rd).
 
-(* evm.StaticCall: readOnly is switched on (and stays on in every frame below) *)
-Definition do_staticcall (rec : interp_t) (e : env) (w : world) (rd : list Z) (tr : list tentry) (depth : Z)
+(* evm.StaticCall.  interpreter.readOnly is mutable state of the interpreter, not a parameter:
+     if !evm.interpreter.readOnly { evm.interpreter.readOnly = true; defer func() { evm.interpreter.readOnly = false }() }
+   [ro] is the flag when StaticCall is entered; the callee (and every frame below it) runs with the flag
+   on; the flag is switched off again on return exactly when this call switched it on.  The flag every
+   call hands back is [o_ro]; the caller goes on with it (after_child).  InterpProofsStatic.v proves
+   that every call kind hands back the flag it was entered with (flag_discipline), i.e. that the
+   mutable flag behaves like a parameter passed down. *)
+Definition set_out_ro (o : outcome) (ro : bool) : outcome :=
+  mk_out (o_res o) (o_gas o) (o_world o) (o_rd o) (o_trace o) (o_addr o) ro.
+Definition do_staticcall (rec : interp_t) (e : env) (w : world) (rd : list Z) (tr : list tentry) (depth : Z) (ro : bool)
            (caller addr : Z) (input : list Z) (gas : Z) : outcome :=
-  if depth >? CallCreateDepth then mkout (R_err IE_Depth []) gas w rd tr
+  if depth >? CallCreateDepth then mkout (R_err IE_Depth []) gas w rd tr ro
   else
     let fr := new_frame (get_code w addr) input addr caller 0 gas true (depth + 1) tr in
-    finish_call w (run_contract rec e w addr fr rd).
+    let o := finish_call w (run_contract rec e w addr fr rd) in
+    if ro then o else set_out_ro o false.
 
 (* evm.Create *)
 Definition do_create (rec : interp_t) (e : env) (w : world) (rd : list Z) (tr : list tentry) (depth : Z) (ro : bool)
            (caller : Z) (code : list Z) (gas value : Z) : outcome :=
-  if depth >? CallCreateDepth then mkout (R_err IE_Depth []) gas w rd tr
-  else if negb (can_transfer w caller value) then mkout (R_err IE_InsufficientBalance []) gas w rd tr
+  if depth >? CallCreateDepth then mkout (R_err IE_Depth []) gas w rd tr ro
+  else if negb (can_transfer w caller value) then mkout (R_err IE_InsufficientBalance []) gas w rd tr ro
   else
     let nonce := get_nonce w caller in
     let w0 := set_nonce w caller (wrap64 (nonce + 1)) in
     let addr := create_address caller nonce in
     if negb (get_nonce w0 addr =? 0) || match get_code w0 addr with [] => false | _ => true end
-    then mk_out (R_err IE_Collision []) 0 w0 rd tr 0
+    then mk_out (R_err IE_Collision []) 0 w0 rd tr 0 ro
     else
       let snapshot := w0 in
       let w1 := create_account w0 addr in
@@ -513,7 +523,7 @@ Definition do_create (rec : interp_t) (e : env) (w : world) (rd : list Z) (tr : 
         let wb := if revert then snapshot else wa in
         let gas2 := if revert && negb is_rev then 0 else gas1 in
         let res2 := if exceeded && negb failed then R_err IE_MaxCodeSize ret else res1 in
-        mk_out res2 gas2 wb (o_rd o) (o_trace o) addr
+        mk_out res2 gas2 wb (o_rd o) (o_trace o) addr (o_ro o)
       end.
 
 (* ------------------------------------------------------------------ one instruction *)
@@ -681,9 +691,9 @@ Definition set_rdata (fr : frame) (rd : list Z) : frame :=
   mk_frame (f_pc fr) (f_stack fr) (f_mem fr) (f_last fr) (f_gas fr) (f_code fr) (f_input fr) rd (f_self fr)
            (f_caller fr) (f_value fr) (f_ro fr) (f_depth fr) (f_trace fr).
 (* after a child came back: stack, memory, gas, interpreter.returnData, trace *)
-Definition after_child (fr : frame) (st mem : list Z) (gas : Z) (rd : list Z) (tr : list tentry) : frame :=
+Definition after_child (fr : frame) (st mem : list Z) (gas : Z) (rd : list Z) (tr : list tentry) (ro : bool) : frame :=
   mk_frame (f_pc fr) st mem (f_last fr) gas (f_code fr) (f_input fr) rd (f_self fr)
-           (f_caller fr) (f_value fr) (f_ro fr) (f_depth fr) tr.
+           (f_caller fr) (f_value fr) ro (f_depth fr) tr.
 
 Definition lift_mem (w : world) (fr : frame) (st : list Z) (r : res (list Z)) : xres :=
   match r with Ok m => X_ok w (set_stack_mem fr st m) [] | Err e => X_err (IE_op e) | Panic => X_panic end.
@@ -700,7 +710,7 @@ Definition call_return (w : world) (fr : frame) (rest : list Z) (retOffset retSi
                   | R_ok _ | R_revert _ => mem_set (f_mem fr) (big_Uint64 retOffset) (big_Uint64 retSize) ret
                   | _ => Ok (f_mem fr) end in
       match memr with
-      | Ok m => X_ok (o_world o) (after_child fr (flag :: rest) m (wrap64 (f_gas fr + o_gas o)) (o_rd o) (o_trace o)) ret
+      | Ok m => X_ok (o_world o) (after_child fr (flag :: rest) m (wrap64 (f_gas fr + o_gas o)) (o_rd o) (o_trace o) (o_ro o)) ret
       | Err er => X_err (IE_op er)
       | Panic => X_panic
       end
@@ -812,7 +822,7 @@ Definition exec (rec : interp_t) (e : env) (w : world) (fr : frame) (x : execfn)
                     else if failed && negb is_cso then 0
                     else o_addr o in
                   let res := match rr with R_revert ret => ret | _ => [] end in
-                  X_ok (o_world o) (after_child fr (pushed :: r) mem (wrap64 (left + o_gas o)) (o_rd o) (o_trace o)) res
+                  X_ok (o_world o) (after_child fr (pushed :: r) mem (wrap64 (left + o_gas o)) (o_rd o) (o_trace o) (o_ro o)) res
               end
           | Err er => X_err (IE_op er) | Panic => X_panic end
       | _ => X_panic end
@@ -854,7 +864,7 @@ Definition exec (rec : interp_t) (e : env) (w : world) (fr : frame) (x : execfn)
           match mem_get mem (big_Int64 inOffset) (big_Int64 inSize) with
           | Ok args =>
               call_return w fr r retOffset retSize
-                (do_staticcall rec e w (f_rdata fr) (f_trace fr) (f_depth fr) (f_self fr) (addr_of addr) args temp)
+                (do_staticcall rec e w (f_rdata fr) (f_trace fr) (f_depth fr) (f_ro fr) (f_self fr) (addr_of addr) args temp)
           | Err er => X_err (IE_op er) | Panic => X_panic end
       | _ => X_panic end
   | E_return | E_revert =>
@@ -876,7 +886,7 @@ Inductive sres : Type :=
 | S_next (w : world) (fr : frame)   (* the loop goes on *)
 | S_done (o : outcome).             (* Run returns *)
 
-Definition fail (w : world) (fr : frame) (er : ierr) : sres := S_done (mkout (R_err er []) (f_gas fr) w (f_rdata fr) (f_trace fr)).
+Definition fail (w : world) (fr : frame) (er : ierr) : sres := S_done (mkout (R_err er []) (f_gas fr) w (f_rdata fr) (f_trace fr) (f_ro fr)).
 
 (* interpreter.go enforceRestrictions *)
 Definition restricted (e : env) (fr : frame) (op : Z) (c : cop) : bool :=
@@ -891,20 +901,20 @@ Definition step (rec : interp_t) (e : env) (w : world) (fr : frame) : sres :=
   else
   match validateStack (c_pops c) (c_pushes c) (blen (f_stack fr)) with
   | Err er => fail w fr (IE_op er)
-  | Panic => S_done (mkout R_panic (f_gas fr) w (f_rdata fr) (f_trace fr))
+  | Panic => S_done (mkout R_panic (f_gas fr) w (f_rdata fr) (f_trace fr) (f_ro fr))
   | Ok _ =>
   (* CALL in a static context reads Back(2): validateStack has already checked 7 items *)
   if restricted e fr op c then fail w fr IE_WriteProtection
   else
   match mem_size_big (c_mem c) (f_stack fr) with
-  | None => S_done (mkout R_panic (f_gas fr) w (f_rdata fr) (f_trace fr))
+  | None => S_done (mkout R_panic (f_gas fr) w (f_rdata fr) (f_trace fr) (f_ro fr))
   | Some msb =>
   match (match msb with None => Ok 0 | Some b => run_memorySize b end) with
   | Err er => fail w fr (IE_op er)
-  | Panic => S_done (mkout R_panic (f_gas fr) w (f_rdata fr) (f_trace fr))
+  | Panic => S_done (mkout R_panic (f_gas fr) w (f_rdata fr) (f_trace fr) (f_ro fr))
   | Ok memorySize =>
   match gas_cost e w fr (c_gas c) memorySize with
-  | Panic => S_done (mkout R_panic (f_gas fr) w (f_rdata fr) (f_trace fr))
+  | Panic => S_done (mkout R_panic (f_gas fr) w (f_rdata fr) (f_trace fr) (f_ro fr))
   | Err _ => fail w fr (IE_op ErrOutOfGas)
   | Ok g =>
   if f_gas fr <? g_cost g then fail (g_world g) fr (IE_op ErrOutOfGas)
@@ -916,13 +926,13 @@ Definition step (rec : interp_t) (e : env) (w : world) (fr : frame) : sres :=
     let fr1 := mk_frame (f_pc fr) (f_stack fr) mem1 (g_last g) (f_gas fr - g_cost g) (f_code fr) (f_input fr)
                         (f_rdata fr) (f_self fr) (f_caller fr) (f_value fr) (f_ro fr) (f_depth fr) tr1 in
     match exec rec e (g_world g) fr1 (c_exec c) (g_temp g) with
-    | X_panic => S_done (mkout R_panic (f_gas fr1) (g_world g) (f_rdata fr1) tr1)
-    | X_fuel => S_done (mkout R_fuel (f_gas fr1) (g_world g) (f_rdata fr1) tr1)
-    | X_err er => S_done (mkout (R_err er []) (f_gas fr1) (g_world g) (f_rdata fr1) tr1)
+    | X_panic => S_done (mkout R_panic (f_gas fr1) (g_world g) (f_rdata fr1) tr1 (f_ro fr1))
+    | X_fuel => S_done (mkout R_fuel (f_gas fr1) (g_world g) (f_rdata fr1) tr1 (f_ro fr1))
+    | X_err er => S_done (mkout (R_err er []) (f_gas fr1) (g_world g) (f_rdata fr1) tr1 (f_ro fr1))
     | X_ok w2 fr2 res =>
         let fr3 := if c_returns c then set_rdata fr2 res else fr2 in
-        if c_reverts c then S_done (mkout (R_revert res) (f_gas fr3) w2 (f_rdata fr3) (f_trace fr3))
-        else if c_halts c then S_done (mkout (R_ok res) (f_gas fr3) w2 (f_rdata fr3) (f_trace fr3))
+        if c_reverts c then S_done (mkout (R_revert res) (f_gas fr3) w2 (f_rdata fr3) (f_trace fr3) (f_ro fr3))
+        else if c_halts c then S_done (mkout (R_ok res) (f_gas fr3) w2 (f_rdata fr3) (f_trace fr3) (f_ro fr3))
         else if c_jumps c then S_next w2 fr3
         else S_next w2 (set_pc fr3 (wrap64 (f_pc fr3 + 1)))
     end
@@ -931,14 +941,14 @@ Definition step (rec : interp_t) (e : env) (w : world) (fr : frame) : sres :=
 (* Interpreter.Run on a fresh frame, given the loop: nothing happens when there is no code *)
 Definition interp_of (lp : interp_t) : interp_t :=
   fun w fr => match f_code fr with
-              | [] => mkout (R_ok []) (f_gas fr) w [] (f_trace fr)
+              | [] => mkout (R_ok []) (f_gas fr) w [] (f_trace fr) (f_ro fr)
               | _ => lp w fr
               end.
 
 (* the loop of Interpreter.Run; every iteration and every nested frame consumes one unit of fuel *)
 Fixpoint loop (fuel : nat) (e : env) (w : world) (fr : frame) {struct fuel} : outcome :=
   match fuel with
-  | O => mkout R_fuel (f_gas fr) w (f_rdata fr) (f_trace fr)
+  | O => mkout R_fuel (f_gas fr) w (f_rdata fr) (f_trace fr) (f_ro fr)
   | S f =>
       match step (interp_of (loop f e)) e w fr with
       | S_next w' fr' => loop f e w' fr'
